@@ -31,137 +31,156 @@ def snap():
         return None
     return [tuple((id(d), copy.copy(d)) for d in fr) for fr in st.memo_stack]
 
-for shape, depth in [("S1", 0), ("S2", 0), ("S3", 1), ("S3", 2), ("S3", 3)]:
-    key = f"{shape}/{depth}"
-    # ---- get_shape_memo
-    reset(shape, depth); before = snap()
-    got = ST.get_shape_memo()
-    T.case(("get", key), sample={"op": "get_shape_memo", "state": key})
-    if shape == "S3":
-        top = ST._shape_storage.memo_stack[-1]
-        if not (len(got) == 4 and all(g is t for g, t in zip(got, top))):
-            T.fail(f"get_shape_memo:{key}", "returns-the-top-frame-dicts-by-reference", expected="identity with memo_stack[-1]", actual=repr(got)[:200])
-    else:
-        if not (len(got) == 4 and all(g == {} for g in got) and len({id(g) for g in got}) == 4):
-            T.fail(f"get_shape_memo:{key}", "returns-four-fresh-empty-dicts", actual=repr(got)[:200])
-        got2 = ST.get_shape_memo()
-        if any(x is y for x in got for y in got2):
-            T.fail(f"get_shape_memo:{key}", "temporary-dicts-are-not-shared-between-calls", actual="same dict object returned twice")
-    if snap() != before:
-        T.fail(f"get_shape_memo:{key}", "modifies-nothing")
-    # ---- set_shape_memo: top frame REPLACED by exactly the four argument objects; lower frames untouched
-    reset(shape, depth); before = snap()
-    new = ({"a": 9}, {"s": (True, (1, 3))}, {}, {"y": 1})   # restores an OVERWRITTEN variadic binding and removes keys
-    if shape == "S3":
-        ST._shape_storage.memo_stack[-1][1]["s"] = (True, (2, 3))   # a widened '#' binding that a rollback must undo
-        ST._shape_storage.memo_stack[-1][0]["fresh"] = 5
-    ST.set_shape_memo(*new)
-    after = ST.get_shape_memo()
-    T.case(("set", key), sample={"op": "set_shape_memo", "state": key})
-    if shape == "S3":
-        view = tuple(dict(d) for d in after)
-        if view != tuple(dict(d) for d in new):
-            T.fail(f"set_shape_memo:{key}", "top-frame-holds-exactly-the-snapshot-contents(overwritten-values-restored,added-keys-gone)", expected=repr(new), actual=repr(view)[:300],
-                   snippet="import jaxtyping._storage as S; S._shape_storage.memo_stack=[({}, {'s':(True,(2,3))}, {}, {})]; S.set_shape_memo({}, {'s':(True,(1,3))}, {}, {}); print(S.get_shape_memo())")
-        if snap()[:-1] != before[:-1]:
-            T.fail(f"set_shape_memo:{key}", "lower-frames-untouched")
-    else:
+def _section_frames():
+    for shape, depth in [("S1", 0), ("S2", 0), ("S3", 1), ("S3", 2), ("S3", 3)]:
+        key = f"{shape}/{depth}"
+        # ---- get_shape_memo
+        reset(shape, depth); before = snap()
+        got = ST.get_shape_memo()
+        T.case(("get", key), sample={"op": "get_shape_memo", "state": key})
+        if shape == "S3":
+            top = ST._shape_storage.memo_stack[-1]
+            if not (len(got) == 4 and all(g is t for g, t in zip(got, top))):
+                T.fail(f"get_shape_memo:{key}", "returns-the-top-frame-dicts-by-reference", expected="identity with memo_stack[-1]", actual=repr(got)[:200])
+        else:
+            if not (len(got) == 4 and all(g == {} for g in got) and len({id(g) for g in got}) == 4):
+                T.fail(f"get_shape_memo:{key}", "returns-four-fresh-empty-dicts", actual=repr(got)[:200])
+            got2 = ST.get_shape_memo()
+            if any(x is y for x in got for y in got2):
+                T.fail(f"get_shape_memo:{key}", "temporary-dicts-are-not-shared-between-calls", actual="same dict object returned twice")
         if snap() != before:
-            T.fail(f"set_shape_memo:{key}", "no-op-without-a-context")
-    # ---- set_shape_memo must also undo a pure OVERWRITE (no key added, so all lengths are unchanged)
-    if shape == "S3":
-        reset(shape, depth)
-        top = ST._shape_storage.memo_stack[-1]
-        snapshot = tuple(dict(d) for d in top)
-        top[1]["s"] = (True, (2, 3)); top[0]["a"] = 99            # same keys, new values
-        ST.set_shape_memo(*[dict(d) for d in snapshot])
-        T.case(("set-overwrite", key))
-        now = tuple(dict(d) for d in ST.get_shape_memo())
-        if now != snapshot:
-            T.fail(f"set_shape_memo:{key}:overwrite-only", "a-rollback-restores-overwritten-values-even-when-no-key-was-added", expected=repr(snapshot)[:200], actual=repr(now)[:200],
-                   snippet="import jaxtyping._storage as S; S._shape_storage.memo_stack=[({'a':1}, {'s':(True,(2,3))}, {}, {})]; S.set_shape_memo({'a':1}, {'s':(True,(1,3))}, {}, {}); print(S.get_shape_memo())")
-    # ---- push / pop
-    reset(shape, depth); before = snap()
-    args = {"p": 1, "q": object()}
-    memos = ST.push_shape_memo(args)
-    T.case(("push", key))
-    st = ST._shape_storage.memo_stack
-    ok = len(st) == (len(before) if before else 0) + 1 and st[-1] is memos and memos[0] == {} and memos[1] == {} and memos[2] == {} and memos[3] == args and memos[3] is not args
-    if not ok or (before and [tuple(id(d) for d in fr) for fr in st[:-1]] != [tuple(i for i, _ in fr) for fr in before]):
-        T.fail(f"push_shape_memo:{key}", "stack-is-old-stack-plus-one-fresh-frame-with-a-copy-of-the-arguments", actual=repr(st)[:200])
-    ST.pop_shape_memo()
-    T.case(("pop", key))
-    now = snap()
-    if (now or []) != (before or []):
-        T.fail(f"pop_shape_memo:{key}", "pop-after-push-restores-the-stack-exactly", expected=repr(before)[:200], actual=repr(now)[:200])
-    if shape != "S3":
-        reset(shape, depth)
-        try:
-            ST.pop_shape_memo(); T.fail(f"pop_shape_memo:{key}", "requires-a-pushed-frame(raises-otherwise)", actual="returned normally")
-        except (AttributeError, IndexError):
-            pass
-# ---- label and flatten flag
-for kind in ("absent", "none", "set"):
-    tp = ST._treepath_storage
-    if hasattr(tp, "value"): del tp.value
-    if kind == "none": tp.value = None
-    if kind == "set": tp.value = "(Leaf 0 in structure T) "
-    T.case(("label", kind))
-    try:
-        r = ST.get_treepath_memo()
-        if kind != "set" or r != "(Leaf 0 in structure T) ": T.fail(f"get_treepath_memo:{kind}", "returns-the-label-or-raises-AnnotationError", actual=repr(r))
-    except AnnotationError:
-        if kind == "set": T.fail(f"get_treepath_memo:{kind}", "returns-the-label-when-set")
-    try:
-        ST.set_treepath_memo(3, "T")
-        if kind == "set": T.fail(f"set_treepath_memo:{kind}", "raises-AnnotationError-when-a-label-is-already-set")
-        elif ST._treepath_storage.value != "(Leaf 3 in structure T) ": T.fail(f"set_treepath_memo:{kind}", "label-is-(Leaf i in structure T)", actual=repr(ST._treepath_storage.value))
-    except AnnotationError:
-        if kind != "set": T.fail(f"set_treepath_memo:{kind}", "sets-a-label-when-none-is-set")
-    ST.clear_treepath_memo()
-    if getattr(ST._treepath_storage, "value", "x") is not None: T.fail(f"clear_treepath_memo:{kind}", "label-is-None-afterwards")
-for kind in ("absent", True, False):
-    tf = ST._treeflatten_storage
-    if hasattr(tf, "value"): del tf.value
-    if kind != "absent": tf.value = kind
-    T.case(("flatten", str(kind)))
-    if ST.get_treeflatten_memo() is not (kind is True): T.fail(f"get_treeflatten_memo:{kind}", "returns-the-flag(False-when-absent)")
-    ST.set_treeflatten_memo()
-    if ST.get_treeflatten_memo() is not True: T.fail(f"set_treeflatten_memo:{kind}", "flag-True-afterwards")
-    ST.clear_treeflatten_memo()
-    if ST.get_treeflatten_memo() is not False: T.fail(f"clear_treeflatten_memo:{kind}", "flag-False-afterwards")
-# ---- shape_str: lists exactly the bindings in force (C13): every non-hidden axis, variadic and structure binding once, nothing else
-import itertools as _it
-names = ["n", "m", "~~delete~~(T) k"]
-for sig_keys in _it.chain.from_iterable(_it.combinations(names, r) for r in range(3)):
-    for nu_keys in _it.chain.from_iterable(_it.combinations(["n", "s", "~~delete~~(T) v"], r) for r in range(3)):
-        for pi_keys in ((), ("T",), ("T", "S")):
-            sig = {k: 3 + i for i, k in enumerate(sig_keys)}
-            nu = {k: (bool(i % 2), (4 + i, 5)) for i, k in enumerate(nu_keys)}
-            pi = {k: "PyTreeDef(%s)" % k for k in pi_keys}
-            T.case(("shape_str", sig_keys, nu_keys, pi_keys))
+            T.fail(f"get_shape_memo:{key}", "modifies-nothing")
+        # ---- set_shape_memo: top frame REPLACED by exactly the four argument objects; lower frames untouched
+        reset(shape, depth); before = snap()
+        new = ({"a": 9}, {"s": (True, (1, 3))}, {}, {"y": 1})   # restores an OVERWRITTEN variadic binding and removes keys
+        if shape == "S3":
+            ST._shape_storage.memo_stack[-1][1]["s"] = (True, (2, 3))   # a widened '#' binding that a rollback must undo
+            ST._shape_storage.memo_stack[-1][0]["fresh"] = 5
+        ST.set_shape_memo(*new)
+        after = ST.get_shape_memo()
+        T.case(("set", key), sample={"op": "set_shape_memo", "state": key})
+        if shape == "S3":
+            view = tuple(dict(d) for d in after)
+            if view != tuple(dict(d) for d in new):
+                T.fail(f"set_shape_memo:{key}", "top-frame-holds-exactly-the-snapshot-contents(overwritten-values-restored,added-keys-gone)", expected=repr(new), actual=repr(view)[:300],
+                       snippet="import jaxtyping._storage as S; S._shape_storage.memo_stack=[({}, {'s':(True,(2,3))}, {}, {})]; S.set_shape_memo({}, {'s':(True,(1,3))}, {}, {}); print(S.get_shape_memo())")
+            if snap()[:-1] != before[:-1]:
+                T.fail(f"set_shape_memo:{key}", "lower-frames-untouched")
+        else:
+            if snap() != before:
+                T.fail(f"set_shape_memo:{key}", "no-op-without-a-context")
+        # ---- set_shape_memo must also undo a pure OVERWRITE (no key added, so all lengths are unchanged)
+        if shape == "S3":
+            reset(shape, depth)
+            top = ST._shape_storage.memo_stack[-1]
+            snapshot = tuple(dict(d) for d in top)
+            top[1]["s"] = (True, (2, 3)); top[0]["a"] = 99            # same keys, new values
+            ST.set_shape_memo(*[dict(d) for d in snapshot])
+            T.case(("set-overwrite", key))
+            now = tuple(dict(d) for d in ST.get_shape_memo())
+            if now != snapshot:
+                T.fail(f"set_shape_memo:{key}:overwrite-only", "a-rollback-restores-overwritten-values-even-when-no-key-was-added", expected=repr(snapshot)[:200], actual=repr(now)[:200],
+                       snippet="import jaxtyping._storage as S; S._shape_storage.memo_stack=[({'a':1}, {'s':(True,(2,3))}, {}, {})]; S.set_shape_memo({'a':1}, {'s':(True,(1,3))}, {}, {}); print(S.get_shape_memo())")
+        # ---- push / pop
+        reset(shape, depth); before = snap()
+        args = {"p": 1, "q": object()}
+        memos = ST.push_shape_memo(args)
+        T.case(("push", key))
+        st = ST._shape_storage.memo_stack
+        ok = len(st) == (len(before) if before else 0) + 1 and st[-1] is memos and memos[0] == {} and memos[1] == {} and memos[2] == {} and memos[3] == args and memos[3] is not args
+        if not ok or (before and [tuple(id(d) for d in fr) for fr in st[:-1]] != [tuple(i for i, _ in fr) for fr in before]):
+            T.fail(f"push_shape_memo:{key}", "stack-is-old-stack-plus-one-fresh-frame-with-a-copy-of-the-arguments", actual=repr(st)[:200])
+        ST.pop_shape_memo()
+        T.case(("pop", key))
+        now = snap()
+        if (now or []) != (before or []):
+            T.fail(f"pop_shape_memo:{key}", "pop-after-push-restores-the-stack-exactly", expected=repr(before)[:200], actual=repr(now)[:200])
+        if shape != "S3":
+            reset(shape, depth)
             try:
-                out = ST.shape_str((sig, nu, pi, {"arg": 1}))
-            except BaseException as e:
-                T.fail(f"shape_str:{sig_keys}|{nu_keys}|{pi_keys}", "never-raises", actual=repr(e)); continue
-            lines = out.split("\n") if out else []
-            want = [f"{k}={v}" for k, v in sig.items() if not k.startswith("~~delete~~")] + [f"{k}={v[1]}" for k, v in nu.items() if not k.startswith("~~delete~~")] + [f"{k}={v}" for k, v in pi.items()]
-            got = [l for l in lines if "=" in l and not l.startswith("The current values")]
-            if sorted(got) != sorted(want):
-                T.fail(f"shape_str:sigma={list(sig_keys)}|nu={list(nu_keys)}|pi={list(pi_keys)}", "lists-exactly-the-bindings-in-force(each-axis,variadic-and-structure-binding-once;hidden-names-omitted)", expected=want, actual=got,
-                       snippet=f"import jaxtyping._storage as S; print(S.shape_str(({sig!r}, {nu!r}, {pi!r}, {{}})))")
-# ---- per-thread namespaces
-seen = {}
-def worker():
-    seen["stack"] = hasattr(ST._shape_storage, "memo_stack") and len(ST._shape_storage.memo_stack)
-    seen["label"] = getattr(ST._treepath_storage, "value", None)
-    seen["flat"] = ST.get_treeflatten_memo()
-    seen["tmp"] = [id(d) for d in ST.get_shape_memo()]
-reset("S3", 2); ST._treepath_storage.value = "L"; ST.set_treeflatten_memo(); mine = [id(d) for d in ST.get_shape_memo()]
-t = threading.Thread(target=worker); t.start(); t.join()
-T.case(("threads", "fresh-thread-sees-nothing"))
-if seen["stack"] or seen["label"] is not None or seen["flat"] or set(seen["tmp"]) & set(mine):
-    T.fail("thread-local:fresh-thread", "a-new-thread-sees-no-stack-no-label-no-flag", actual=repr(seen))
-reset("S1"); ST.clear_treepath_memo(); ST.clear_treeflatten_memo()
+                ST.pop_shape_memo(); T.fail(f"pop_shape_memo:{key}", "requires-a-pushed-frame(raises-otherwise)", actual="returned normally")
+            except (AttributeError, IndexError):
+                pass
+def _section_label():
+    # ---- label and flatten flag
+    for kind in ("absent", "none", "set"):
+        tp = ST._treepath_storage
+        if hasattr(tp, "value"): del tp.value
+        if kind == "none": tp.value = None
+        if kind == "set": tp.value = "(Leaf 0 in structure T) "
+        T.case(("label", kind))
+        try:
+            r = ST.get_treepath_memo()
+            if kind != "set" or r != "(Leaf 0 in structure T) ": T.fail(f"get_treepath_memo:{kind}", "returns-the-label-or-raises-AnnotationError", actual=repr(r))
+        except AnnotationError:
+            if kind == "set": T.fail(f"get_treepath_memo:{kind}", "returns-the-label-when-set")
+        try:
+            ST.set_treepath_memo(3, "T")
+            if kind == "set": T.fail(f"set_treepath_memo:{kind}", "raises-AnnotationError-when-a-label-is-already-set")
+            elif ST._treepath_storage.value != "(Leaf 3 in structure T) ": T.fail(f"set_treepath_memo:{kind}", "label-is-(Leaf i in structure T)", actual=repr(ST._treepath_storage.value))
+        except AnnotationError:
+            if kind != "set": T.fail(f"set_treepath_memo:{kind}", "sets-a-label-when-none-is-set")
+        ST.clear_treepath_memo()
+        if getattr(ST._treepath_storage, "value", "x") is not None: T.fail(f"clear_treepath_memo:{kind}", "label-is-None-afterwards")
+def _section_flatten():
+    for kind in ("absent", True, False):
+        tf = ST._treeflatten_storage
+        if hasattr(tf, "value"): del tf.value
+        if kind != "absent": tf.value = kind
+        T.case(("flatten", str(kind)))
+        if ST.get_treeflatten_memo() is not (kind is True): T.fail(f"get_treeflatten_memo:{kind}", "returns-the-flag(False-when-absent)")
+        ST.set_treeflatten_memo()
+        if ST.get_treeflatten_memo() is not True: T.fail(f"set_treeflatten_memo:{kind}", "flag-True-afterwards")
+        ST.clear_treeflatten_memo()
+        if ST.get_treeflatten_memo() is not False: T.fail(f"clear_treeflatten_memo:{kind}", "flag-False-afterwards")
+def _section_shape_str():
+    # ---- shape_str: lists exactly the bindings in force (C13): every non-hidden axis, variadic and structure binding once, nothing else
+    import itertools as _it
+    names = ["n", "m", "~~delete~~(T) k"]
+    for sig_keys in _it.chain.from_iterable(_it.combinations(names, r) for r in range(3)):
+        for nu_keys in _it.chain.from_iterable(_it.combinations(["n", "s", "~~delete~~(T) v"], r) for r in range(3)):
+            for pi_keys in ((), ("T",), ("T", "S")):
+                sig = {k: 3 + i for i, k in enumerate(sig_keys)}
+                nu = {k: (bool(i % 2), (4 + i, 5)) for i, k in enumerate(nu_keys)}
+                pi = {k: "PyTreeDef(%s)" % k for k in pi_keys}
+                T.case(("shape_str", sig_keys, nu_keys, pi_keys))
+                try:
+                    out = ST.shape_str((sig, nu, pi, {"arg": 1}))
+                except BaseException as e:
+                    T.fail(f"shape_str:{sig_keys}|{nu_keys}|{pi_keys}", "never-raises", actual=repr(e)); continue
+                lines = out.split("\n") if out else []
+                want = [f"{k}={v}" for k, v in sig.items() if not k.startswith("~~delete~~")] + [f"{k}={v[1]}" for k, v in nu.items() if not k.startswith("~~delete~~")] + [f"{k}={v}" for k, v in pi.items()]
+                got = [l for l in lines if "=" in l and not l.startswith("The current values")]
+                if sorted(got) != sorted(want):
+                    T.fail(f"shape_str:sigma={list(sig_keys)}|nu={list(nu_keys)}|pi={list(pi_keys)}", "lists-exactly-the-bindings-in-force(each-axis,variadic-and-structure-binding-once;hidden-names-omitted)", expected=want, actual=got,
+                           snippet=f"import jaxtyping._storage as S; print(S.shape_str(({sig!r}, {nu!r}, {pi!r}, {{}})))")
+def _section_threads():
+    global seen
+    # ---- per-thread namespaces
+    seen = {}
+    def worker():
+        seen["stack"] = hasattr(ST._shape_storage, "memo_stack") and len(ST._shape_storage.memo_stack)
+        seen["label"] = getattr(ST._treepath_storage, "value", None)
+        seen["flat"] = ST.get_treeflatten_memo()
+        seen["tmp"] = [id(d) for d in ST.get_shape_memo()]
+    reset("S3", 2); ST._treepath_storage.value = "L"; ST.set_treeflatten_memo(); mine = [id(d) for d in ST.get_shape_memo()]
+    t = threading.Thread(target=worker); t.start(); t.join()
+    T.case(("threads", "fresh-thread-sees-nothing"))
+    if seen["stack"] or seen["label"] is not None or seen["flat"] or set(seen["tmp"]) & set(mine):
+        T.fail("thread-local:fresh-thread", "a-new-thread-sees-no-stack-no-label-no-flag", actual=repr(seen))
+SKIPPED = []
+for _name, _fn in (("frames", _section_frames), ("label", _section_label), ("flatten", _section_flatten), ("shape_str", _section_shape_str), ("threads", _section_threads)):
+    try:
+        _fn()
+    except AttributeError as _e:
+        # a function / storage root this section exercises no longer exists under that name in the tree under test (renamed, merged, turned into
+        # a context manager ...): its contract cannot be exercised from here -- the section is skipped and reported, not counted as a failure
+        if "module 'jaxtyping._storage' has no attribute" not in str(_e):
+            raise
+        SKIPPED.append(f"{_name}: {_e}")
+try:
+    reset("S1"); ST.clear_treepath_memo(); ST.clear_treeflatten_memo()
+except AttributeError:
+    pass
 emit(T, bound="storage states S1, S2, S3(depth 1..3) x {get,set,push,pop}; label {absent,None,set} x {get,set,clear}; flatten flag {absent,True,False} x {get,set,clear}; one fresh-thread probe",
-     rule="one case per (operation, state shape); all are non-trivial", exhaustive=True)
+     rule="one case per (operation, state shape); all are non-trivial" + (("; SECTIONS SKIPPED (names not provided by this tree): " + "; ".join(SKIPPED)) if SKIPPED else ""), exhaustive=True)
